@@ -278,6 +278,8 @@ pub fn exec(case: &Value) -> Value {
         let mut evs = vec![];
         for c in calls {
             let ctx = mk_ctx(&c["ctx"], stats.clone());
+            // every other call is made with a COPY of the settings (as the front ends do every frame)
+            let ctx = if evs.len() % 2 == 1 { ctx.clone() } else { ctx };
             let ord: Vec<usize> = c["ord"].as_array().unwrap().iter().map(|t| t.as_u64().unwrap() as usize - 1).collect();
             let faces: Vec<Tri<usize>> = ord.iter().map(|&t| face(t)).collect();
             // submit only as many vertices as the call says (always enough for the faces used)
@@ -498,6 +500,18 @@ pub fn gen(args: &Args, out: &mut dyn Write) {
                 { let inside = rng.chance(1, 3); gen_tri(&mut rng, inside, 2, 14) }
             };
             tris.push(tri);
+        }
+        // every fourth ordinary scene is a FAN: all its triangles start at the same position (each with its own
+        // attribute, as flat-shaded faces meeting at a corner do)
+        if !gap && !painter && i % 4 == 3 {
+            let apex = tris[0][0];
+            for t in tris.iter_mut().skip(1) {
+                let mut u = *t;
+                u[0] = apex;
+                if det3(&u) != 0 {
+                    *t = u;
+                }
+            }
         }
         // the reversed twin of the first triangle (C07: culling selects one vertex order)
         let mut twin = tris[0];
